@@ -2,8 +2,61 @@
 -- after the models were brought in line with the code; kept by hand). The specification side of the bridge.
 namespace Tea.Doc
 
+def fact_bodies_nilRenderer : List String := [
+    "altScreen|{ return false }",
+    "bracketedPasteActive|{ return false }",
+    "clearScreen|{ }",
+    "disableBracketedPaste|{ }",
+    "disableMouseAllMotion|{ }",
+    "disableMouseCellMotion|{ }",
+    "disableMouseSGRMode|{ }",
+    "disableReportFocus|{ }",
+    "enableBracketedPaste|{ }",
+    "enableMouseAllMotion|{ }",
+    "enableMouseCellMotion|{ }",
+    "enableMouseSGRMode|{ }",
+    "enableReportFocus|{ }",
+    "enterAltScreen|{ }",
+    "exitAltScreen|{ }",
+    "hideCursor|{ }",
+    "kill|{ }",
+    "repaint|{ }",
+    "reportFocus|{ return false }",
+    "setWindowTitle|{ }",
+    "showCursor|{ }",
+    "start|{ }",
+    "stop|{ }",
+    "write|{ }"]
+
 def fact_body_Batch : List String := [
     "{ var v1 []Cmd for _, v2 := range a1 { if v2 == nil { continue } v1 = append(v1, v2) } switch len(v1) { case 0: return nil case 1: return v1[0] default: return func() Msg { return BatchMsg(v1) } } }"]
+
+def fact_body_ClearScreen : List String := [
+    "{ return clearScreenMsg{} }"]
+
+def fact_body_DisableBracketedPaste : List String := [
+    "{ return disableBracketedPasteMsg{} }"]
+
+def fact_body_DisableMouse : List String := [
+    "{ return disableMouseMsg{} }"]
+
+def fact_body_DisableReportFocus : List String := [
+    "{ return disableReportFocusMsg{} }"]
+
+def fact_body_EnableBracketedPaste : List String := [
+    "{ return enableBracketedPasteMsg{} }"]
+
+def fact_body_EnableMouseAllMotion : List String := [
+    "{ return enableMouseAllMotionMsg{} }"]
+
+def fact_body_EnableMouseCellMotion : List String := [
+    "{ return enableMouseCellMotionMsg{} }"]
+
+def fact_body_EnableReportFocus : List String := [
+    "{ return enableReportFocusMsg{} }"]
+
+def fact_body_EnterAltScreen : List String := [
+    "{ return enterAltScreenMsg{} }"]
 
 def fact_body_Every : List String := [
     "{ v1 := time.Now() v2 := v1.Truncate(a1).Add(a1).Sub(v1) v3 := time.NewTimer(v2) return func() Msg { v4 := <-v3.C v3.Stop() for len(v3.C) > 0 { <-v3.C } return a2(v4) } }"]
@@ -14,8 +67,47 @@ def fact_body_Exec : List String := [
 def fact_body_ExecProcess : List String := [
     "{ return Exec(wrapExecCommand(a1), a2) }"]
 
+def fact_body_ExitAltScreen : List String := [
+    "{ return exitAltScreenMsg{} }"]
+
+def fact_body_HideCursor : List String := [
+    "{ return hideCursorMsg{} }"]
+
+def fact_body_Interrupt : List String := [
+    "{ return InterruptMsg{} }"]
+
 def fact_body_Key_String : List String := [
     "{ var v1 strings.Builder if k.Alt { v1.WriteString(\"alt+\") } if k.Type == KeyRunes { if k.Paste { v1.WriteByte('[') } v1.WriteString(string(k.Runes)) if k.Paste { v1.WriteByte(']') } return v1.String() } else if v2, v3 := keyNames[k.Type]; v3 { v1.WriteString(v2) return v1.String() } return \"\" }"]
+
+def fact_body_MouseEvent_IsWheel : List String := [
+    "{ return m.Button == MouseButtonWheelUp || m.Button == MouseButtonWheelDown || m.Button == MouseButtonWheelLeft || m.Button == MouseButtonWheelRight }"]
+
+def fact_body_NewProgram : List String := [
+    "{ v1 := &Program{ initialModel: a1, msgs: make(chan Msg), finished: make(chan struct{}), } for _, v2 := range a2 { v2(v1) } if v1.ctx == nil { v1.ctx = context.Background() } v1.ctx, v1.cancel = context.WithCancel(v1.ctx) if v1.output == nil { v1.output = os.Stdout } if v1.environ == nil { v1.environ = os.Environ() } return v1 }"]
+
+def fact_body_Printf : List String := [
+    "{ return func() Msg { return printLineMessage{ messageBody: fmt.Sprintf(a1, a2...), } } }"]
+
+def fact_body_Println : List String := [
+    "{ return func() Msg { return printLineMessage{ messageBody: fmt.Sprint(a1...), } } }"]
+
+def fact_body_Program_DisableMouseAllMotion : List String := [
+    "{ if p.renderer != nil { p.renderer.disableMouseAllMotion() } else { p.startupOptions &^= withMouseAllMotion } }"]
+
+def fact_body_Program_DisableMouseCellMotion : List String := [
+    "{ if p.renderer != nil { p.renderer.disableMouseCellMotion() } else { p.startupOptions &^= withMouseCellMotion } }"]
+
+def fact_body_Program_EnableMouseAllMotion : List String := [
+    "{ if p.renderer != nil { p.renderer.enableMouseAllMotion() } else { p.startupOptions |= withMouseAllMotion } }"]
+
+def fact_body_Program_EnableMouseCellMotion : List String := [
+    "{ if p.renderer != nil { p.renderer.enableMouseCellMotion() } else { p.startupOptions |= withMouseCellMotion } }"]
+
+def fact_body_Program_EnterAltScreen : List String := [
+    "{ if p.renderer != nil { p.renderer.enterAltScreen() } else { p.startupOptions |= withAltScreen } }"]
+
+def fact_body_Program_ExitAltScreen : List String := [
+    "{ if p.renderer != nil { p.renderer.exitAltScreen() } else { p.startupOptions &^= withAltScreen } }"]
 
 def fact_body_Program_Kill : List String := [
     "{ p.shutdown(true) }"]
@@ -32,6 +124,15 @@ def fact_body_Program_Quit : List String := [
 def fact_body_Program_Send : List String := [
     "{ select { case <-p.ctx.Done(): case p.msgs <- a1: } }"]
 
+def fact_body_Program_SetWindowTitle : List String := [
+    "{ if p.renderer != nil { p.renderer.setWindowTitle(a1) } else { p.startupTitle = a1 } }"]
+
+def fact_body_Program_Start : List String := [
+    "{ _, v1 := p.Run() return v1 }"]
+
+def fact_body_Program_StartReturningModel : List String := [
+    "{ return p.Run() }"]
+
 def fact_body_Program_Wait : List String := [
     "{ <-p.finished }"]
 
@@ -40,6 +141,9 @@ def fact_body_Program_checkResize : List String := [
 
 def fact_body_Program_handleCommands : List String := [
     "{ v1 := make(chan struct{}) go func() { defer close(v1) defer verifPause(\"cmds: exit\") for { select { case <-p.ctx.Done(): return case v2 := <-a1: if v2 == nil { continue } go func() { if !p.startupOptions.has(withoutCatchPanics) { defer p.recoverFromPanic() } v3 := v2() p.Send(v3) }() } } }() return v1 }"]
+
+def fact_body_Program_handlePanic : List String := [
+    "{ p.shutdown(true) fmt.Printf(\"Caught panic:\\n\\n%s\\n\\nRestoring terminal...\\n\\n\", a1) debug.PrintStack() }"]
 
 def fact_body_Program_handleResize : List String := [
     "{ v1 := make(chan struct{}) if p.ttyOutput != nil { go p.listenForResize(v1) } else { close(v1) } return v1 }"]
@@ -68,17 +172,83 @@ def fact_body_Program_suspend : List String := [
 def fact_body_Program_waitForReadLoop : List String := [
     "{ select { case <-p.readLoopDone: case <-time.After(500 * time.Millisecond): } }"]
 
+def fact_body_Quit : List String := [
+    "{ return QuitMsg{} }"]
+
 def fact_body_Sequence : List String := [
     "{ return func() Msg { return sequenceMsg(a1) } }"]
 
+def fact_body_Sequentially : List String := [
+    "{ return func() Msg { for _, v1 := range a1 { if v1 == nil { continue } if v2 := v1(); v2 != nil { return v2 } } return nil } }"]
+
+def fact_body_SetWindowTitle : List String := [
+    "{ return func() Msg { return setWindowTitleMsg(a1) } }"]
+
+def fact_body_ShowCursor : List String := [
+    "{ return showCursorMsg{} }"]
+
+def fact_body_Suspend : List String := [
+    "{ return SuspendMsg{} }"]
+
 def fact_body_Tick : List String := [
     "{ v1 := time.NewTimer(a1) return func() Msg { v2 := <-v1.C v1.Stop() for len(v1.C) > 0 { <-v1.C } return a2(v2) } }"]
+
+def fact_body_WindowSize : List String := [
+    "{ return func() Msg { return windowSizeMsg{} } }"]
+
+def fact_body_WithANSICompressor : List String := [
+    "{ return func(v1 *Program) { v1.startupOptions |= withANSICompressor } }"]
+
+def fact_body_WithAltScreen : List String := [
+    "{ return func(v1 *Program) { v1.startupOptions |= withAltScreen } }"]
+
+def fact_body_WithContext : List String := [
+    "{ return func(v1 *Program) { v1.ctx = a1 } }"]
+
+def fact_body_WithEnvironment : List String := [
+    "{ return func(v1 *Program) { v1.environ = a1 } }"]
 
 def fact_body_WithFPS : List String := [
     "{ return func(v1 *Program) { v1.fps = a1 } }"]
 
 def fact_body_WithFilter : List String := [
     "{ return func(v1 *Program) { v1.filter = a1 } }"]
+
+def fact_body_WithInput : List String := [
+    "{ return func(v1 *Program) { v1.input = a1 v1.inputType = customInput } }"]
+
+def fact_body_WithInputTTY : List String := [
+    "{ return func(v1 *Program) { v1.inputType = ttyInput } }"]
+
+def fact_body_WithMouseAllMotion : List String := [
+    "{ return func(v1 *Program) { v1.startupOptions |= withMouseAllMotion v1.startupOptions &^= withMouseCellMotion } }"]
+
+def fact_body_WithMouseCellMotion : List String := [
+    "{ return func(v1 *Program) { v1.startupOptions |= withMouseCellMotion v1.startupOptions &^= withMouseAllMotion } }"]
+
+def fact_body_WithOutput : List String := [
+    "{ return func(v1 *Program) { v1.output = a1 } }"]
+
+def fact_body_WithReportFocus : List String := [
+    "{ return func(v1 *Program) { v1.startupOptions |= withReportFocus } }"]
+
+def fact_body_WithoutBracketedPaste : List String := [
+    "{ return func(v1 *Program) { v1.startupOptions |= withoutBracketedPaste } }"]
+
+def fact_body_WithoutCatchPanics : List String := [
+    "{ return func(v1 *Program) { v1.startupOptions |= withoutCatchPanics } }"]
+
+def fact_body_WithoutRenderer : List String := [
+    "{ return func(v1 *Program) { v1.renderer = &nilRenderer{} } }"]
+
+def fact_body_WithoutSignalHandler : List String := [
+    "{ return func(v1 *Program) { v1.startupOptions |= withoutSignalHandler } }"]
+
+def fact_body_WithoutSignals : List String := [
+    "{ return func(v1 *Program) { v1.withoutSignals = true atomic.StoreUint32(&v1.ignoreSignals, 1) } }"]
+
+def fact_body_channelHandlers_add : List String := [
+    "{ *h = append(*h, a1) }"]
 
 def fact_body_channelHandlers_shutdown : List String := [
     "{ var v1 sync.WaitGroup for _, v2 := range h { v1.Add(1) go func(v3 chan struct{}) { <-v3 v1.Done() }(v2) } v1.Wait() }"]
@@ -98,8 +268,14 @@ def fact_body_detectSequence : List String := [
 def fact_body_isIncompleteEvent : List String := [
     "{ if len(a1) == 0 || a1[0] != '\\x1b' { return false } if _, v1 := extSequencePrefixes[string(a1)]; v1 { return true } if len(a1) < 2 || a1[1] != '[' { return false } if v2, _, _ := detectReportFocus(a1); v2 { return true } if len(a1) >= 3 && a1[2] == 'M' { return len(a1) < 6 } v3 := 2 for v3 < len(a1) && a1[v3] >= 0x30 && a1[v3] <= 0x3f { v3++ } for v3 < len(a1) && a1[v3] >= 0x20 && a1[v3] <= 0x2f { v3++ } return v3 == len(a1) }"]
 
+def fact_body_newInputReader : List String := [
+    "{ v1, v2 := cancelreader.NewReader(a1) if v2 != nil { return nil, fmt.Errorf(\"bubbletea: error creating cancel reader: %w\", v2) } return v1, nil }"]
+
 def fact_body_newRenderer : List String := [
     "{ if a3 < 1 { a3 = defaultFPS } else if a3 > maxFPS { a3 = maxFPS } v1 := &standardRenderer{ a1: a1, mtx: &sync.Mutex{}, done: make(chan struct{}), framerate: time.Second / time.Duration(a3), a2: a2, queuedMessageLines: []string{}, } if v1.useANSICompressor { v1.out = &compressor.Writer{Forward: a1} } return v1 }"]
+
+def fact_body_openInputTTY : List String := [
+    "{ v1, v2 := os.Open(\"/dev/tty\") if v2 != nil { return nil, fmt.Errorf(\"could not open a new TTY: %w\", v2) } return v1, nil }"]
 
 def fact_body_osExecCommand_SetStderr : List String := [
     "{ if c.Stderr == nil { c.Stderr = a1 } }"]
@@ -122,11 +298,23 @@ def fact_body_parseX10MouseEvent : List String := [
 def fact_body_readAnsiInputs : List String := [
     "{ var v1 [256]byte var v2 []byte var v3 error loop: for { var v4 int v5 := v3 if v5 == nil { v4, v5 = a3.Read(v1[:]) } if v5 != nil && v4 > 0 { v3, v5 = v5, nil } if v5 != nil { if errors.Is(v5, io.EOF) { for v6 := v2; len(v6) > 0; { v7, v8 := detectOneMsg(v6, false) if v7 == 0 { break } select { case a2 <- v8: case <-a1.Done(): return fmt.Errorf(\"found context error while reading input: %w\", a1.Err()) } v6 = v6[v7:] } } return fmt.Errorf(\"error reading input: %w\", v5) } v9 := v1[:v4] if v2 != nil { v9 = append(v2, v9...) } v10 := v4 == len(v1) && v3 == nil var v11, v12 int for v11, v12 = 0, 0; v11 < len(v9); v11 += v12 { var v13 Msg v12, v13 = detectOneMsg(v9[v11:], v10) if v12 == 0 { v2 = make([]byte, 0, len(v9[v11:])+len(v1)) v2 = append(v2, v9[v11:]...) continue loop } select { case a2 <- v13: case <-a1.Done(): v14 := a1.Err() if v14 != nil { v14 = fmt.Errorf(\"found context error while reading input: %w\", v14) } return v14 } } v2 = nil } }"]
 
+def fact_body_readInputs : List String := [
+    "{ return readAnsiInputs(a1, a2, a3) }"]
+
+def fact_body_standardRenderer_altScreen : List String := [
+    "{ r.mtx.Lock() defer r.mtx.Unlock() return r.altScreenActive }"]
+
+def fact_body_standardRenderer_bracketedPasteActive : List String := [
+    "{ r.mtx.Lock() defer r.mtx.Unlock() return r.bpActive }"]
+
 def fact_body_standardRenderer_clearScreen : List String := [
     "{ r.mtx.Lock() defer r.mtx.Unlock() r.execute(ansi.EraseEntireScreen) r.execute(ansi.CursorHomePosition) r.repaint() }"]
 
 def fact_body_standardRenderer_enterAltScreen : List String := [
     "{ r.mtx.Lock() defer r.mtx.Unlock() if r.altScreenActive { return } if len(r.queuedMessageLines) > 0 { r.render() } r.altScreenActive = true r.execute(ansi.SetAltScreenSaveCursorMode) r.execute(ansi.EraseEntireScreen) r.execute(ansi.CursorHomePosition) if r.cursorHidden { r.execute(ansi.HideCursor) } else { r.execute(ansi.ShowCursor) } r.altLinesRendered = 0 r.repaint() }"]
+
+def fact_body_standardRenderer_execute : List String := [
+    "{ _, _ = io.WriteString(r.out, a1) }"]
 
 def fact_body_standardRenderer_exitAltScreen : List String := [
     "{ r.mtx.Lock() defer r.mtx.Unlock() if !r.altScreenActive { return } r.altScreenActive = false r.execute(ansi.ResetAltScreenSaveCursorMode) if r.cursorHidden { r.execute(ansi.HideCursor) } else { r.execute(ansi.ShowCursor) } r.repaint() }"]
@@ -143,6 +331,9 @@ def fact_body_standardRenderer_handleMessages : List String := [
 def fact_body_standardRenderer_kill : List String := [
     "{ r.halt() r.mtx.Lock() defer r.mtx.Unlock() r.execute(ansi.EraseEntireLine) r.execute(\"\\r\") r.repaint() }"]
 
+def fact_body_standardRenderer_lastLinesRendered : List String := [
+    "{ if r.altScreenActive { return r.altLinesRendered } return r.linesRendered }"]
+
 def fact_body_standardRenderer_listen : List String := [
     "{ for { select { case <-r.done: r.ticker.Stop() return case <-r.ticker.C: r.flush() } } }"]
 
@@ -152,6 +343,12 @@ def fact_body_standardRenderer_render : List String := [
 def fact_body_standardRenderer_repaint : List String := [
     "{ r.lastRender = \"\" r.lastRenderedLines = nil }"]
 
+def fact_body_standardRenderer_reportFocus : List String := [
+    "{ r.mtx.Lock() defer r.mtx.Unlock() return r.reportingFocus }"]
+
+def fact_body_standardRenderer_setWindowTitle : List String := [
+    "{ r.execute(ansi.SetWindowTitle(a1)) }"]
+
 def fact_body_standardRenderer_start : List String := [
     "{ r.listenMtx.Lock() defer r.listenMtx.Unlock() if r.ticker == nil { r.ticker = time.NewTicker(r.framerate) } else { r.ticker.Reset(r.framerate) } if r.listening { return } r.listening = true go r.listen() }"]
 
@@ -160,6 +357,12 @@ def fact_body_standardRenderer_stop : List String := [
 
 def fact_body_standardRenderer_write : List String := [
     "{ r.mtx.Lock() defer r.mtx.Unlock() r.buf.Reset() if a1 == \"\" { a1 = \" \" } _, _ = r.buf.WriteString(a1) }"]
+
+def fact_body_startupOptions_has : List String := [
+    "{ return s&a1 != 0 }"]
+
+def fact_body_suspendProcess : List String := [
+    "{ v1 := make(chan os.Signal, 1) signal.Notify(v1, syscall.SIGCONT) _ = syscall.Kill(0, syscall.SIGTSTP) <-v1 }"]
 
 def fact_body_wrapExecCommand : List String := [
     "{ return &osExecCommand{Cmd: a1} }"]
